@@ -12,7 +12,9 @@ meta = {
     "id": sid, "breaks_property": prop,
     "needs_to_manifest": needs,
     "confirmed": "harness/confirm_mut.sh in a scratch worktree of /repo HEAD: demo.py exits 0 on the clean tree; with patch.diff applied the 302 tests pass and demo.py exits non-zero",
-    "checks_run": f"harness/mutcheck.sh seeded/{sid}/patch.diff {prop}  (git -C /repo apply; ./check {prop} --tier quick; git -C /repo checkout -- .)",
+    "checks_run": (f"harness/mutpar.sh seeded/{sid}/patch.diff {prop}  (patch applied in a scratch worktree of /repo HEAD; ./check {prop} --tier quick run from a scratch copy of /verif with FLOWMARK_REPO and PYTHONPATH pointing at that worktree; both removed afterwards)"
+                   if __import__("os").environ.get("MUTPAR") else
+                   f"harness/mutcheck.sh seeded/{sid}/patch.diff {prop}  (git -C /repo apply; ./check {prop} --tier quick; git -C /repo checkout -- .)"),
     "detected_by": detected or "NOT DETECTED (yet)",
 }
 (dst / "meta.json").write_text(json.dumps(meta, indent=1) + "\n")
